@@ -229,8 +229,10 @@ R11.4 config templates and mock templates are both created with Funcs(template_f
 	}
 	_ = reflect.TypeOf
 	// the documented function library itself (shared with C16)
-	rf := loadRepo(c, packages.LoadSyntax, "", "./template_funcs")
+	rf := loadRepo(c, packages.LoadSyntax, "", "./template_funcs", "./internal/config")
 	ruleFuncMap(c, rf, "R11.4")
+	// which config file is "the one in use" when it is found by search
+	ruleFindConfig(c, rf, "R11.1")
 }
 
 func ruleFixpoint(c *Ctx, r *Repo, cp *packages.Package, fd *ast.FuncDecl) {
